@@ -18,6 +18,7 @@ Part "lits"   Hypothesis: literal segments holding characters that are special i
 """
 import io
 import itertools
+import re
 import types
 
 from hypothesis import strategies as st
@@ -231,6 +232,7 @@ class Table(object):
         self.router = Router()
         self.nreq = 0
         self.entries = []
+        self.factory = None
         self.cb_index = {}
         self._register(len(entries) if upto is None else upto)
 
@@ -298,6 +300,30 @@ class Table(object):
         return resp, list(self.calls)
 
 
+HTTP_SAFE = re.compile(r"^/(?!/)[A-Za-z0-9._~+$/:*()\[\]|^{}\\-]*$")
+
+
+def http_request(table, method, path):
+    """the same request the way a network peer sends it: raw HTTP/1.1 bytes into the server's protocol (HTTPFactory ->
+    twisted channel -> RequestFactory -> Router.dispatch) over an in-memory transport.  -> (status, handler calls)"""
+    from twisted.internet.testing import StringTransport
+    from twisted.internet.address import IPv4Address
+    if table.factory is None:
+        table.factory = H.HTTPFactory(router=table.router)
+    table.nreq += 1
+    n = table.nreq
+    proto = table.factory.buildProtocol(None)
+    tr = StringTransport(peerAddress=IPv4Address("TCP", "11.%d.%d.%d" % ((n >> 16) & 255, (n >> 8) & 255, n & 255), 40000))
+    proto.makeConnection(tr)
+    del table.calls[:]
+    extra = b"Content-Length: 0\r\n" if method in ("POST", "PUT") else b""
+    proto.dataReceived(method.encode() + b" " + path.encode("ascii") + b" HTTP/1.1\r\nHost: localhost\r\n" + extra + b"Connection: close\r\n\r\n")
+    raw = tr.value()
+    head = raw.split(b"\r\n", 1)[0].split(b" ")
+    status = int(head[1]) if len(head) > 1 and head[1].isdigit() else None
+    return status, list(table.calls)
+
+
 def expectation(pats, entries, method, path):
     """-> (acceptable, verdicts, bindings) following 'the first registered matching route of the request's method is
     chosen'.  acceptable = set of route indexes the router may answer (None = no route): the first route the grammar
@@ -324,7 +350,7 @@ def expectation(pats, entries, method, path):
     return acceptable, verdicts, binds
 
 
-def check_lookup(ctx, table, pats, method, path, case, with_dispatch=True):
+def check_lookup(ctx, table, pats, method, path, case, with_dispatch=True, http=False):
     """compare getRoute (and dispatch) with the reference; returns the verdict summary"""
     entries = table.entries
     acceptable, verdicts, binds = expectation(pats, entries, method, path)
@@ -375,6 +401,14 @@ def check_lookup(ctx, table, pats, method, path, case, with_dispatch=True):
         else:
             if not ((status == 404 and not calls) or (status == 200 and len(calls) == 1 and calls[0][0] in acceptable)):
                 ctx.violation("dispatch-route", "%s: dispatch -> status %r, handlers called %r" % (where, status, calls), case)
+        if http and HTTP_SAFE.match(path):
+            # the HTTP entry point must answer the request exactly as Router.dispatch does (same status, same handler, same
+            # bound values): the path a peer puts on the request line is the path the grammar is applied to
+            hstatus, hcalls = http_request(table, method, path)
+            if hstatus != status or [(i, dict(m or {})) for i, m in hcalls] != [(i, dict(m or {})) for i, m in calls]:
+                ctx.violation("http-entry-differs", "%s: sent as an HTTP/1.1 request -> status %r, handlers called %r; Router.dispatch -> status %r, "
+                              "handlers called %r" % (where, hstatus, hcalls, status, calls), case)
+            ctx.label("lookup-also-through-http-stack")
     return acceptable, verdicts, binds
 
 
@@ -478,9 +512,10 @@ def table_case(ctx, case, count=True):
         # the other in this process carry the same handler names in different definition orders
         names = ["h%d" % i for i in perm]
         table = Table(ent, case["mode"], names=names)
+        first = perm == tuple(range(len(entries)))
         for path in paths:
             for method in METHODS:
-                acceptable, verdicts, binds = check_lookup(ctx, table, pp, method, path, case)
+                acceptable, verdicts, binds = check_lookup(ctx, table, pp, method, path, case, http=first)
                 if count and sum(1 for v in verdicts.values() if v == MATCH) >= 2:
                     multi.add((method, path))
         if split is not None and 0 <= split < len(ent):
@@ -506,6 +541,9 @@ def table_case(ctx, case, count=True):
             ctx.label("table-mixes-websocket-and-plain-get-routes")
 
 
+PARAM_NAME_STYLES = ["x%d", "x%d", "x%d", "user-id%d", "doc.id%d", "%dth", "n\u00e9%d", "a_b%d", "X%d", "p%d-"]
+
+
 def seg_strategy(lits):
     nonfinal = st.one_of(st.sampled_from(lits), st.just(":x"))
     final = st.one_of(st.sampled_from(lits), st.sampled_from([":x", ":x?", ":x+", ":x*"]))
@@ -519,7 +557,10 @@ def pattern_strategy(draw, lits, maxlen=4):
     if n == 0:
         return "/"
     segs = [draw(nonfinal) for _ in range(n - 1)] + [draw(final)]
-    out = [(":x%d%s" % (i, s[2:]) if s.startswith(":") else s) for i, s in enumerate(segs)]
+    # the grammar says ":name" and nothing about what a name may look like: identifiers, and names with a hyphen, a dot,
+    # a leading digit or a non-ASCII letter
+    style = draw(st.sampled_from(PARAM_NAME_STYLES))
+    out = [(":" + (style % i) + s[2:] if s.startswith(":") else s) for i, s in enumerate(segs)]
     return "/" + "/".join(out)
 
 
